@@ -58,8 +58,10 @@ type drv struct {
 	accts    []string     // ids whose balance deltas are logged
 	eths     map[string]string
 	ethNames []string
-	minBurn  uint64
+	minBurn  uint64 // min_burn / min_mint of the base block (the shipped configuration)
 	minMint  uint64
+	curBurn  uint64 // ... as configured NOW in the block under construction (update-global-config moves them)
+	curMint  uint64
 	ethSeq   int
 
 	baseEvents []event.Event // events emitted in the base block (add-authorizer ...)
@@ -304,15 +306,15 @@ func (d *drv) deltas(pre, post map[string]uint64) []pair {
 // ---------------------------------------------------------------- steps
 
 type step struct {
-	Op   string   `json:"op"`   // burn | mint | add | del | block
+	Op   string   `json:"op"`   // burn | mint | add | del | cfg | block
 	C    string   `json:"c"`    // sender (c1, c2, p1, p2)
 	Eth  string   `json:"eth"`  // e1 | e2 | e3 | ""
-	V    string   `json:"v"`    // burn value class: zero | below | min | above | rich
+	V    string   `json:"v"`    // burn value class: zero | below | midlo | min | midhi | above | rich (see burnValue); cfg: the value
 	Rcv  string   `json:"rcv"`  // mint: receiving client
 	N    int64    `json:"n"`    // mint nonce
 	Amt  string   `json:"amt"`  // mint amount class: ok | low | fee
 	Sigs []string `json:"sigs"` // v<i> valid by a<i>, f<i> forged for a<i>, u stranger, x empty id
-	A    string   `json:"a"`    // add / del: authorizer
+	A    string   `json:"a"`    // add / del: authorizer; cfg: the key (min_burn | min_mint; "" = percent_authorizers)
 }
 
 func (d *drv) trace(id int, kind string, steps []step) {
@@ -326,7 +328,9 @@ func (d *drv) trace(id int, kind string, steps []step) {
 	d.w.ColdCache() // see world.ColdCache
 	d.beginBlock(d.base)
 	d.rc.TraceID = id - 1
-	init := d.state(d.snap())
+	st0 := d.snap()
+	d.curBurn, d.curMint = st0.MinBurn, st0.MinMint
+	init := d.state(st0)
 	init["nonces_ledger"] = w.InitNonces(w.CurState)
 	d.rc.Reset(rec.M{"family": "bridge", "kind": kind, "id": id, "seed": d.a.Seed, "steps": steps}, init)
 	for _, s := range steps {
@@ -361,6 +365,7 @@ func (d *drv) emit(ev string, args rec.M, res world.Result, pre, post map[string
 
 func (d *drv) emitWith(ev string, args rec.M, res world.Result, pre, post map[string]uint64, shape string, derive func(st *zcnsc.VerifBridgeState, m rec.M)) {
 	st := d.snap()
+	d.curBurn, d.curMint = st.MinBurn, st.MinMint
 	m := d.state(st)
 	if derive != nil {
 		derive(st, m)
@@ -379,27 +384,88 @@ func (d *drv) emitWith(ev string, args rec.M, res world.Result, pre, post map[st
 	d.rc.Emit(m, shape+"/"+res.Class, res.Class == "ok")
 }
 
+// burnClass names where a burn value lies relative to BOTH configured minimums (min_burn decides, min_mint
+// must have no say): zero | below (under both) | midlo (min_mint <= v < min_burn) | min (= min_burn) |
+// midhi (min_burn < v < min_mint) | above | rich.
+func burnClass(v, minBurn, minMint uint64) string {
+	switch {
+	case v == 0:
+		return "zero"
+	case v < minBurn && v >= minMint:
+		return "midlo"
+	case v < minBurn:
+		return "below"
+	case v == minBurn:
+		return "min"
+	case v < minMint:
+		return "midhi"
+	case v >= minBurn+1000:
+		return "rich"
+	}
+	return "above"
+}
+
+// between picks a value in [lo, hi]: an end point half of the time.
+func (d *drv) between(lo, hi uint64) uint64 {
+	switch d.r.Intn(4) {
+	case 0:
+		return lo
+	case 1:
+		return hi
+	}
+	return lo + uint64(d.r.Intn(int(hi-lo+1)))
+}
+
+// burnValue turns a value class into a value under the minimums configured now; a class that is empty
+// under them (midlo while min_mint >= min_burn ...) falls back to its neighbour.  The class logged is
+// always that of the value actually sent.
+func (d *drv) burnValue(class string) uint64 {
+	mb, mm := d.curBurn, d.curMint
+	lower := mb
+	if mm < lower {
+		lower = mm
+	}
+	switch class {
+	case "zero":
+		return 0
+	case "midlo":
+		if mm < mb {
+			return d.between(mm, mb-1)
+		}
+		return d.burnValue("below")
+	case "below":
+		if lower <= 1 {
+			if mb > 1 {
+				return d.between(1, mb-1)
+			}
+			return 0
+		}
+		return d.between(1, lower-1)
+	case "min":
+		return mb
+	case "midhi":
+		if mb+1 < mm {
+			return d.between(mb+1, mm-1)
+		}
+		return d.burnValue("above")
+	case "above":
+		lo := mb + 1
+		if mm > lo {
+			lo = mm
+		}
+		return lo + uint64(d.r.Intn(40))
+	case "rich":
+		return mb + 1000 + uint64(d.r.Intn(100000))
+	}
+	rec.Fatal("bridge: burn value class %q", class)
+	return 0
+}
+
 func (d *drv) burn(s step) {
 	w := d.w
 	c := d.key(s.C)
-	var v uint64
-	switch s.V {
-	case "zero":
-		v = 0
-	case "below":
-		v = 1 + uint64(d.r.Intn(int(d.minBurn-1)))
-		if d.r.Intn(2) == 0 {
-			v = d.minBurn - 1
-		}
-	case "min":
-		v = d.minBurn
-	case "above":
-		v = d.minBurn + 1 + uint64(d.r.Intn(40))
-	case "rich":
-		v = d.minBurn + 1000 + uint64(d.r.Intn(100000))
-	default:
-		rec.Fatal("bridge: burn value class %q", s.V)
-	}
+	v := d.burnValue(s.V)
+	class := burnClass(v, d.curBurn, d.curMint)
 	var input interface{} = map[string]interface{}{"ethereum_address": d.eths[s.Eth]}
 	if s.Eth == "" { // "no ethereum address" in every shape the payload decoder can meet
 		switch d.r.Intn(4) {
@@ -414,8 +480,8 @@ func (d *drv) burn(s step) {
 	pre := d.balances()
 	res := w.DoRec(d.rc, d.sc(c, "burn", input, v), nil)
 	post := d.balances()
-	d.emit("Burn", rec.M{"client": c.Name, "eth": s.Eth, "value": clamp(int64(v))}, res, pre, post,
-		fmt.Sprintf("%s/%v", s.V, s.Eth != ""))
+	d.emit("Burn", rec.M{"client": c.Name, "eth": s.Eth, "value": clamp(int64(v)), "vclass": class}, res, pre, post,
+		fmt.Sprintf("%s/%v", class, s.Eth != ""))
 }
 
 type sigOut struct {
@@ -432,7 +498,7 @@ func (d *drv) mint(s step) {
 	c := d.key(s.C)
 	rcv := d.key(s.Rcv)
 	var amount uint64
-	floor := d.minMint
+	floor := d.curMint
 	if maxFee > floor {
 		floor = maxFee
 	}
@@ -593,14 +659,47 @@ func (d *drv) authOp(s step) {
 	d.emit("Auth", rec.M{"op": s.Op, "a": k.Name}, res, pre, post, s.Op)
 }
 
-// cfgOp changes percent_authorizers with the real update-global-config transaction (min_stake is raised
-// to one unit with it: the node's Validate refuses the 0 of harness/config/sc.yaml).
+// zcn renders a number of coins as the ZCN amount string update-global-config parses (1 ZCN = 1e10 coins).
+func zcn(coins uint64) string { return fmt.Sprintf("%.10f", float64(coins)/1e10) }
+
+// cfgOp changes one setting with the real update-global-config transaction: percent_authorizers (key ""),
+// or one of the two minimums min_burn / min_mint, which are equal as shipped - value lo | base | hi relative
+// to the shipped minimum, or a number of coins.  (min_stake is raised to one unit with it: the node's
+// Validate refuses the 0 of harness/config/sc.yaml.)
 func (d *drv) cfgOp(s step) {
 	w := d.w
+	fields := map[string]string{"min_stake": "0.0000000001"}
+	label := s.V
+	switch s.A {
+	case "":
+		fields["percent_authorizers"] = s.V
+	case "min_burn", "min_mint":
+		var coins uint64
+		switch s.V {
+		case "lo":
+			coins = d.minBurn / 2
+		case "base":
+			coins = d.minBurn
+		case "hi":
+			coins = d.minBurn + d.minBurn/2
+		default:
+			if _, err := fmt.Sscanf(s.V, "%d", &coins); err != nil {
+				rec.Fatal("bridge: cfg value %q", s.V)
+			}
+		}
+		fields[s.A] = zcn(coins)
+		label = s.A + "=" + s.V
+	default:
+		rec.Fatal("bridge: cfg key %q", s.A)
+	}
 	pre := d.balances()
-	res := w.DoRec(d.rc, d.sc(w.Owner, "update-global-config", map[string]interface{}{"fields": map[string]string{"percent_authorizers": s.V, "min_stake": "0.0000000001"}}, 0), nil)
+	res := w.DoRec(d.rc, d.sc(w.Owner, "update-global-config", map[string]interface{}{"fields": fields}, 0), nil)
 	post := d.balances()
-	d.emit("Auth", rec.M{"op": "cfg", "a": s.V}, res, pre, post, "cfg")
+	shape := "cfg"
+	if s.A != "" {
+		shape = "cfg-" + s.A
+	}
+	d.emit("Auth", rec.M{"op": "cfg", "a": label}, res, pre, post, shape)
 }
 
 // ---------------------------------------------------------------- random histories
@@ -613,12 +712,12 @@ func (d *drv) randomSteps(a common.Args, i int) []step {
 	}
 	clients := []string{"c1", "c2", "c3", "p1", "p2"}
 	sigKinds := []string{"v1", "v2", "v3", "v4", "f1", "f2", "f3", "f4", "u", "x", "g1", "g2"}
-	vals := []string{"zero", "below", "min", "above", "above", "rich"}
+	vals := []string{"zero", "below", "min", "above", "above", "rich", "midlo", "midhi"}
 	eths := []string{"e1", "e2", "e3", "e1", "e2", ""}
 	maxNonce := int64(3 + r.Intn(12)) // beyond the partition size (5) in most traces
 	var out []step
 	for len(out) < n {
-		switch x := r.Intn(20); {
+		switch x := r.Intn(22); {
 		case x < 7:
 			out = append(out, step{Op: "burn", C: clients[r.Intn(len(clients))], Eth: eths[r.Intn(len(eths))], V: vals[r.Intn(len(vals))]})
 		case x < 16:
@@ -646,6 +745,12 @@ func (d *drv) randomSteps(a common.Args, i int) []step {
 			out = append(out, step{Op: "add", A: fmt.Sprintf("a%d", 1+r.Intn(4))})
 		case x < 19:
 			out = append(out, step{Op: "cfg", V: []string{"0.34", "0.5", "0.7", "0.9", "1"}[r.Intn(5)]})
+		case x < 21: // the owner moves one of the two minimums (they are equal as shipped)
+			s := step{Op: "cfg", A: []string{"min_burn", "min_mint"}[r.Intn(2)], V: []string{"lo", "base", "hi"}[r.Intn(3)]}
+			if r.Intn(3) == 0 {
+				s.V = fmt.Sprint(2 + r.Intn(3*int(d.minBurn)))
+			}
+			out = append(out, s)
 		default:
 			out = append(out, step{Op: "block"})
 		}
